@@ -32,6 +32,8 @@ pub enum Ev {
     UserLock,
     /// The user asks for a gossip round with an address.
     UserGossip,
+    /// The user takes the shared-state lock and keeps it for a while (virtual ms), then releases.
+    UserHoldLock(u16),
     RecvFatal,
     RecvPanic,
     Shutdown,
@@ -193,6 +195,21 @@ pub fn exec_srv(case: &SrvCase, tally: &mut Tally) -> Result<(), Failure> {
                         .await;
                         if r.is_err() {
                             return vio("C19/user-lock-deadlock", format!("event {step}: with_chitchat did not return within {STALL:?} of virtual time"));
+                        }
+                    }
+                }
+                Ev::UserHoldLock(ms) => {
+                    if fatal.is_none() && !shut {
+                        let arc = h.chitchat();
+                        let r = tokio::time::timeout(STALL, async {
+                            let mut guard = arc.lock().await;
+                            guard.self_node_state().set("held", format!("{step}"));
+                            tokio::time::sleep(Duration::from_millis(*ms as u64)).await;
+                            drop(guard);
+                        })
+                        .await;
+                        if r.is_err() {
+                            return vio("C19/user-lock-deadlock", format!("event {step}: taking the shared lock did not succeed within {STALL:?} of virtual time"));
                         }
                     }
                 }
@@ -366,6 +383,7 @@ fn ev_strategy() -> impl Strategy<Value = Ev> {
         4 => prop_oneof![Just(1u16), 5u16..400, 400u16..3000].prop_map(Ev::Delay),
         2 => Just(Ev::UserLock),
         1 => Just(Ev::UserGossip),
+        2 => prop_oneof![Just(1u16), 50u16..5000].prop_map(Ev::UserHoldLock),
         1 => Just(Ev::RecvFatal),
         1 => Just(Ev::RecvPanic),
         1 => Just(Ev::Shutdown),
